@@ -41,6 +41,8 @@ CHILD = os.path.join(HERE, "child.py")
 DWORKER = os.path.join(HERE, "dworker.py")
 MODEL_FILES = ["MypyVerif/Model/Driver.lean", "MypyVerif/Proofs/Driver.lean", "MypyVerif/Gen/DriverCaps.lean"]
 NPROC = 12
+# development knob (default 1): scales the number of mutants / daemon steps, e.g. for the self-test mutations
+SCALE = float(os.environ.get("VERIF_C20_SCALE", "1") or 1)
 BASE_FLAGS = ["--show-traceback", "--no-color-output"]
 
 
@@ -584,7 +586,7 @@ def handle_batch_failure(ctx: Ctx, runner: Runner, job: dict, res: dict, reason:
 
 
 def batch_search(ctx: Ctx, runner: Runner) -> None:
-    n = ctx.pick(800, 8000)
+    n = max(int(ctx.pick(800, 8000) * SCALE), 20)
     jobs = make_batch_jobs(ctx, n)
     t0 = time.time()
     results = run_batch(ctx, runner, jobs)
@@ -762,7 +764,7 @@ def fresh_output(runner: Runner, idx: str, files: dict[str, str], flags: list[st
 
 def daemon_search(ctx: Ctx, runner: Runner) -> None:
     nhist = ctx.pick(6, 12)
-    steps = ctx.pick(40, 320)
+    steps = max(int(ctx.pick(40, 320) * SCALE), 9)
     hists = make_histories(ctx, nhist, steps)
     t0 = time.time()
     with ThreadPoolExecutor(max_workers=6) as ex:
@@ -983,71 +985,83 @@ WITNESSES = [
                                    {"main.py": "from typing import TypedDict\nA = TypedDict(\"A\", {\"foo\": int})\na = A({\"foo\": 1})\n"},
                                    {"main.py": "x = 1\n"}], [], "daemon"),
     ("daemon-blocker-in-reprocess", "corpus/c20/daemon_blocker_in_reprocess.json", [], "daemon"),
+    ("daemon-placeholder-snapshot", "corpus/c20/daemon_placeholder_snapshot.json", [], "daemon"),
     # a function that has to be deferred twice: the daemon runs a single second pass after an edit
     ("daemon-single-second-pass", [{"main.py": "x: int = 1\n"}, {"main.py": gen.defer_chain(2)}], [], "daemon-compare"),
 ]
 
 
+def _witness_history(files) -> list[dict]:
+    if isinstance(files, str):
+        from harness.vlib.core import VERIF
+        stored = json.load(open(os.path.join(VERIF, files)))["daemon_history"]
+        return [{"write": s_["write"], "delete": s_.get("delete", []), "probe": False, "origin": "witness", "kinds": []}
+                for s_ in stored]
+    return [{"write": w, "delete": [], "probe": False, "origin": "witness", "kinds": []} for w in files]
+
+
 def witnesses(ctx: Ctx, runner: Runner, info: dict) -> None:
     """one explicit replay per known class keeps it visible (and shows when a fix removes it)"""
-    for wid, files, flags, kind in WITNESSES:
-        ctx.dist("witness", wid)
-        if kind == "daemon-compare":
-            hist = [{"write": w, "delete": [], "probe": False, "origin": "witness", "kinds": []} for w in files]
-            recs = run_history(ctx, runner, 950, hist, [])
-            r = recs[-1]
-            if not r or r.get("resp") is None:
-                raise ToolFailure(f"daemon witness {wid} did not run: {r}")
-            _rc, fresh = fresh_output(runner, "w_" + wid, files[-1], [])
-            got = [l for l in (r["resp"].get("out") or "").split("\n") if l.strip()]
-            ctx.case(("witness", wid))
-            same = sorted(got) == sorted(fresh)
-            ctx.coverage.setdefault("witness_verdicts", {})[wid] = "same-as-fresh" if same else "differs-from-fresh"
-            if not same:
-                obs = {"class": "daemon-differs-from-fresh", "mode": "daemon",
-                       "left_deferred": bool((r.get("trace") or {}).get("left_deferred")),
-                       "only_fresh_has_lines": bool(set(fresh) - set(got)), "only_daemon_has_lines": bool(set(got) - set(fresh))}
-                ctx.report(obs, f"daemon answer differs from a fresh run on the witness {wid}: only fresh {sorted(set(fresh) - set(got))[:3]}",
-                           {"daemon_history": [{"write": w, "delete": []} for w in files], "daemon_out": got, "fresh_out": fresh})
-            continue
+    def run_one(a):
+        k, (wid, files, flags, kind) = a
         if kind == "batch":
-            tmo = 8 if wid == "F6-pow" else None
-            res = runner.run("w_" + wid, files, flags, timeout=tmo)
-            v = ctx.lean_driver("Driver/C20.lean", [obs_line(res)])[0]
-            ctx.case(("witness", wid))
+            return runner.run("w_" + wid, files, flags, timeout=8 if wid == "F6-pow" else None)
+        hist = _witness_history(files)
+        recs = run_history(ctx, runner, 900 + k, hist, [])
+        fresh = fresh_output(runner, "w_" + wid, hist[-1]["write"], [])[1] if kind == "daemon-compare" else None
+        return hist, recs, fresh
+
+    with ThreadPoolExecutor(max_workers=6) as ex:
+        outcomes = list(ex.map(run_one, enumerate(WITNESSES)))
+    batch_lines = [obs_line(o) for (w, o) in zip(WITNESSES, outcomes) if w[3] == "batch"]
+    batch_verdicts = iter(ctx.lean_driver("Driver/C20.lean", batch_lines)) if batch_lines else iter(())
+    verdicts = ctx.coverage.setdefault("witness_verdicts", {})
+    for (wid, files, flags, kind), outcome in zip(WITNESSES, outcomes):
+        ctx.dist("witness", wid)
+        ctx.case(("witness", wid))
+        if kind == "batch":
+            res = outcome
+            v = next(batch_verdicts)
             ctx.count("traces_validated_against_impl")
-            ctx.coverage.setdefault("witness_verdicts", {})[wid] = v
+            verdicts[wid] = v
             if v != "accepted":
                 sig = classify(res, v)
                 sig["mode"] = "batch"
                 ctx.report(sig, f"mypy {sig['class']} ({sig.get('exc') or ''} in {sig.get('file')}:{sig.get('frame')}) on the witness {wid}",
                            {"files": files, "flags": flags, "cmd": "python -m mypy --show-traceback " + " ".join(flags + ["main.py"]),
                             "output_tail": (res["out"] + res["err"])[-1200:], "model_verdict": v})
-        else:
-            if isinstance(files, str):
-                from harness.vlib.core import VERIF
-                stored = json.load(open(os.path.join(VERIF, files)))["daemon_history"]
-                hist = [{"write": s_["write"], "delete": s_.get("delete", []), "probe": False, "origin": "witness", "kinds": []}
-                        for s_ in stored]
-            else:
-                hist = [{"write": w, "delete": [], "probe": False, "origin": "witness", "kinds": []} for w in files]
-            recs = run_history(ctx, runner, 900 + len(ctx.coverage.get("witness_verdicts", {})), hist, [])
-            ctx.case(("witness", wid))
-            verdict = "accepted"
-            for i, r in enumerate(recs):
-                if r and r.get("exc"):
-                    verdict = "daemon-crash"
-                    obs = {"class": "daemon-crash", "exc": r["exc"][0], "file": r["exc"][1], "frame": r["exc"][2],
-                           "caller": caller_of(r["exc"][3]), "mode": "daemon"}
-                    known = ctx.match_known(obs)
-                    if known is not None and any(k == known["id"] for k, _ in ctx.known_hits):
-                        continue
-                    ctx.report(obs, f"daemon crash ({obs['exc']} in {obs['file']}:{obs['frame']}) on the witness history {wid}, step {i}",
-                               {"daemon_history": [{"write": s["write"], "delete": s["delete"]} for s in hist[:i + 1]],
-                                "exception": r["exc"][3][-1500:]})
-                elif r is None or r.get("hang") or r.get("worker_died"):
-                    raise ToolFailure(f"daemon witness did not run: {r}")
-            ctx.coverage.setdefault("witness_verdicts", {})[wid] = verdict
+            continue
+        hist, recs, fresh = outcome
+        if kind == "daemon-compare":
+            r = recs[-1]
+            if not r or r.get("resp") is None:
+                raise ToolFailure(f"daemon witness {wid} did not run: {r}")
+            got = [l for l in (r["resp"].get("out") or "").split("\n") if l.strip()]
+            same = sorted(got) == sorted(fresh)
+            verdicts[wid] = "same-as-fresh" if same else "differs-from-fresh"
+            if not same:
+                obs = {"class": "daemon-differs-from-fresh", "mode": "daemon",
+                       "left_deferred": bool((r.get("trace") or {}).get("left_deferred")),
+                       "only_fresh_has_lines": bool(set(fresh) - set(got)), "only_daemon_has_lines": bool(set(got) - set(fresh))}
+                ctx.report(obs, f"daemon answer differs from a fresh run on the witness {wid}: only fresh {sorted(set(fresh) - set(got))[:3]}",
+                           {"daemon_history": [{"write": s_["write"], "delete": s_["delete"]} for s_ in hist],
+                            "daemon_out": got, "fresh_out": fresh})
+            continue
+        verdict = "accepted"
+        for i, r in enumerate(recs):
+            if r and r.get("exc"):
+                verdict = "daemon-crash"
+                obs = {"class": "daemon-crash", "exc": r["exc"][0], "file": r["exc"][1], "frame": r["exc"][2],
+                       "caller": caller_of(r["exc"][3]), "mode": "daemon"}
+                known = ctx.match_known(obs)
+                if known is not None and any(k == known["id"] for k, _ in ctx.known_hits):
+                    continue
+                ctx.report(obs, f"daemon crash ({obs['exc']} in {obs['file']}:{obs['frame']}) on the witness history {wid}, step {i}",
+                           {"daemon_history": [{"write": s_["write"], "delete": s_["delete"]} for s_ in hist[:i + 1]],
+                            "exception": r["exc"][3][-1500:]})
+            elif r is None or r.get("hang") or r.get("worker_died"):
+                raise ToolFailure(f"daemon witness {wid} did not run: {r}")
+        verdicts[wid] = verdict
     # what the translator's probe of the folder says must agree with the witness
     guard = info["foldGuard"]
     got = ctx.coverage["witness_verdicts"].get("F6-pow")
@@ -1057,7 +1071,7 @@ def witnesses(ctx: Ctx, runner: Runner, info: dict) -> None:
 
 # ===================================================================================== entry points
 def main(ctx: Ctx) -> None:
-    ctx.level = "proof"
+    ctx.level = "other"       # proof for the mechanism only; the universal no-crash clause is searched (see claim_split)
     ctx.coverage["rule"] = (
         "a case = one scripted-oracle run of a real loop, one deferral-chain program, one observed batch run of a mutant / "
         "generated / malformed program or config, or one daemon edit step; distinct by content (hash of all files + flags); "
@@ -1115,7 +1129,7 @@ def search_without_lean(ctx: Ctx, runner: Runner) -> None:
     for k in range(0, 40, 3):
         jobs.append({"id": f"dc{k}", "origin": f"defer-chain-{k}", "kinds": ["generated"],
                      "files": {"main.py": gen.defer_chain(k)}, "flags": []})
-    jobs += make_batch_jobs(ctx, ctx.pick(300, 2000))
+    jobs += make_batch_jobs(ctx, max(int(ctx.pick(300, 2000) * SCALE), 20))
     results = run_batch(ctx, runner, jobs)
     n = 0
     for job, res in zip(jobs, results):
